@@ -106,7 +106,11 @@ pub fn shard_torn(def: &E2Def, tier: &str, seed: u64, shard: u32, programs: u32)
         case.ops.push(fs.new_tree(&mut r).unwrap().current());
         let cr = match count_run(&sb, &case) {
             Ok(c) => c,
-            Err(_) => {
+            Err(e) => {
+                if e.starts_with("UNINJECTED-RUN-FAILED") {
+                    out.failure = Some(uninjected_failure(def.id, &case, &e));
+                    break 'prog;
+                }
                 *stats.entry("count_run_failed".into()).or_insert(0) += 1;
                 continue;
             }
